@@ -62,11 +62,17 @@ double Round(double N, unsigned int digits)
 	double DecimalPower = floor(log10(N));
 	double prefactor	= N * pow(10, -DecimalPower);
 
-	// Round the prefactor
-	prefactor = std::floor(prefactor * pow(10.0, digits - 1) + 0.5);
-	prefactor = prefactor * pow(10.0, -1.0 * digits + 1);
+	// Round the prefactor to an integer number of units of the last significant digit
+	double mantissa = std::floor(prefactor * pow(10.0, digits - 1) + 0.5);
+	double exponent = DecimalPower - digits + 1.0;
+	// Renormalise (e.g. 9.996 -> 10.00), such that a decimal value is always assembled from the same mantissa and exponent. Otherwise rounding a rounded number again can change its last bits.
+	if(mantissa >= pow(10.0, digits))
+	{
+		mantissa /= 10.0;
+		exponent += 1.0;
+	}
 
-	return sign * prefactor * pow(10, DecimalPower);
+	return sign * mantissa * pow(10.0, exponent);
 }
 
 Vector Round(const Vector& vec, unsigned int digits)
